@@ -66,7 +66,7 @@ Proof. unfold check_bounds; intros. destruct (_ && _); try discriminate. destruc
 Lemma check_len_maxmin_np : forall a b c, check_len_maxmin a b c <> Panic.
 Proof. unfold check_len_maxmin; intros. destruct (_ && _); try discriminate. destruct (_ && _); discriminate. Qed.
 
-Lemma validate_np : forall r ne st e, validate r ne st e <> Panic.
+Lemma validate_np : forall r st e, validate r st e <> Panic.
 Proof.
   intros. unfold validate.
   apply bind_not_panic. { destruct (_ && _); [destruct (existsb _ _) |]; discriminate. }
